@@ -14,8 +14,19 @@ JUDGE = S.judge_c08
 KNOWN = {}
 
 
-def strategy():
-    return st.one_of(D.st_function_case(DECO_KW), D.st_class_case(DECO_KW, HIER_KW), D.st_class_case(DECO_KW, HIER_KW))
+@st.composite
+def strategy(draw):
+    case = draw(st.one_of(D.st_function_case(DECO_KW), D.st_class_case(DECO_KW, HIER_KW), D.st_class_case(DECO_KW, HIER_KW)))
+    # on async callables a capture may be a coroutine function, or a sync function returning a coroutine or any other
+    # awaitable: OLD holds the awaited value, captured before the body starts
+    p = case["program"]
+    for f in list(p.get("funcs", [])) + [m for c in p.get("classes", []) for m in c.get("members", [])]:
+        if f.get("async"):
+            for d in f.get("decos", []):
+                if d["t"] == "snapshot" and draw(st.integers(0, 1)) == 0:
+                    d["flavor"] = draw(st.sampled_from(["corofunc", "ret_coro", "awaitable"]))
+                    d["lam"] = False
+    return case
 
 
 def exclude(ctx, case, model):
